@@ -360,6 +360,9 @@ def classify (st : State) (sp : Store) (tn : Taints) (op : Op) (exp got : Resp) 
   -- put
   | .putObject .., .err .NoSuchBucket, _ => (5, "fs:put-into-missing-bucket")
   | .putObject b k .., _, .err .InternalError => (5, internalClass st sp op b k)
+  -- 4f3e079: a key whose side files cannot be named is refused before anything is written — still a key the store accepts
+  | .putObject b k .., _, .err .KeyTooLongError =>
+    if sideTooLong b k false then (5, "fs:long-key-internal-error") else shapeOr generic
   | .putObject .., _, _ => shapeOr generic
   -- get
   | .getObject .., .err .NoSuchBucket, .err .NoSuchKey => (2, "fs:missing-bucket-reported-as-missing-key")
@@ -404,7 +407,10 @@ def classify (st : State) (sp : Store) (tn : Taints) (op : Op) (exp got : Resp) 
   -- multipart
   | .createMultipartUpload .., .err .NoSuchBucket, .created _ => (5, "fs:create-upload-not-validated")
   | .createMultipartUpload .., .err .InvalidArgument, .created _ => (5, "fs:create-upload-not-validated")
-  | .createMultipartUpload _ b k _, _, .err .InternalError => (5, internalClass st sp op b k)
+  -- the metadata file of an upload has the longer name (`….upload-<uuid>.metadata.json`): `CreateUploadOk` excludes
+  -- `sideTooLong b k true`
+  | .createMultipartUpload _ b k _, _, .err .InternalError =>
+    (5, if sideTooLong b k true then "fs:long-key-internal-error" else internalClass st sp op b k)
   | .uploadPart _ _ _ _ n _, .err .InvalidArgument, _ =>
     if n < 1 then (5, "fs:part-number-not-validated") else shapeOr generic
   | .uploadPartCopy _ _ _ _ n .., .err .InvalidArgument, .part _ =>
@@ -509,7 +515,8 @@ def outsideDomain (sp : Store) (op : Op) : Bool :=
 def allErrs : List Err :=
   [.InvalidBucketName, .InvalidArgument, .BucketAlreadyExists, .NoSuchBucket, .NoSuchKey, .InternalError, .InvalidRange,
    .IncompleteBody, .UnexpectedContent, .BadDigest, .InvalidRequest, .AccessDenied, .InvalidPart, .EntityTooSmall,
-   .NotImplemented, .InvalidStorageClass, .NoSuchUpload, .BucketNotEmpty, .MalformedXML, .InvalidPartOrder]
+   .NotImplemented, .InvalidStorageClass, .NoSuchUpload, .BucketNotEmpty, .MalformedXML, .InvalidPartOrder,
+   .KeyTooLongError]
 
 /-- the kind of answer the implementation gave (error code, or the success form of the operation with empty members):
     enough for `classify` to name a deviation the model does not predict -/
